@@ -31,7 +31,7 @@ struct RefLog {
 }
 
 fn topic(i: u64) -> String {
-    format!("0x{:064x}", 0x70_0000 + i)
+    crate::hist::bh((0x70_0000 + i) as u64)
 }
 
 #[derive(Clone, Debug)]
@@ -228,7 +228,7 @@ fn grow_logs(rng: &mut Rng, d: &mut Driver, emitters: &[String], blocks: u64, un
     let mut handed = Vec::new();
     for _ in 0..blocks {
         *uniq += 1;
-        let hash = format!("0x{:064x}", 0x18_0000 + *uniq);
+        let hash = crate::hist::bh((0x18_0000 + *uniq) as u64);
         let ts = 1000 + *uniq;
         let ntx = rng.range(0, 4);
         for _ in 0..ntx {
@@ -330,7 +330,7 @@ fn one_case(ctx: &WorkerCtx, rep: &mut WorkerReport, case_seed: u64, nfilters: u
     let mut d = new_driver("C18");
     d.exec(Op::Init { hash: hist::ZERO_HASH.into(), ts: 1, height: 0 });
     let pk = "5120dddddddddddddddddddddddddddddddddddddddddddddddddddddddddddddddd".to_string();
-    let hash = format!("0x{:064x}", 0x18u64);
+    let hash = crate::hist::bh((0x18u64) as u64);
     let mut emitters = Vec::new();
     for i in 0..2u64 {
         let r = d.exec(Op::Deploy { pk: pk.clone(), data: hist::hx(&if i == 0 { asm::tool_init() } else { asm::tool_init_with_ctor() }), enc: Enc::Hex, ctx: Ctx { ts: 2, hash: hash.clone(), idx: i }, iid: format!("c18-deploy-{}i0", i), len: 100_000, txid: hist::ZERO_HASH.into() });
